@@ -19,6 +19,7 @@ import (
 	"sort"
 	"strings"
 
+	"github.com/golang/geo/r3"
 	"github.com/golang/geo/s1"
 	"github.com/golang/geo/s2"
 
@@ -267,6 +268,7 @@ func opC07Pair(raw json.RawMessage, o *Out) {
 		Fa, Fb, Gf, Ga, Gb int
 		A, B               c07Region
 		Touch              bool
+		Twoface, Spike     bool
 		Want               c07Want
 	}
 	if err := json.Unmarshal(raw, &c); err != nil {
@@ -286,6 +288,19 @@ func opC07Pair(raw json.RawMessage, o *Out) {
 	}
 	if c.Fa != c.Fb {
 		o.Count("pairs_two_faces")
+	}
+	// shape family of A, part of the violation key
+	family := ""
+	if c.Twoface {
+		family = "/two-face-loop"
+		o.Count("pairs_loop_over_two_faces")
+	}
+	if c.Spike {
+		family = "/spike"
+		o.Count("pairs_spike")
+		if c.B.maxVerts() >= 20 {
+			o.Count("pairs_spike_vs_20_or_more_edges")
+		}
 	}
 
 	// loops used for the span classification of every combination
@@ -323,7 +338,7 @@ func opC07Pair(raw json.RawMessage, o *Out) {
 		one := func(rel string, g, w bool, recv, arg string, span string) {
 			if g != w {
 				ok = false
-				o.Fail(fmt.Sprintf("c07pair/%s/%s/want=%s/%s/%s", kind, rel, tf(w), touch, span),
+				o.Fail(fmt.Sprintf("c07pair/%s/%s/want=%s/%s/%s%s", kind, rel, tf(w), touch, span, family),
 					"%s%s(%s) = %v, model (cell sets) says %v; %s", recv, "."+rel, arg, g, w, desc)
 			}
 		}
@@ -623,8 +638,53 @@ func opC07Forest(raw json.RawMessage, o *Out) {
 // -------------------------------------------------------- trace direction
 
 // c07RandPair builds the k-th random pair of the seed: regular loops of 40..3000 vertices.
+// c07BandPair: X is a band around the equator spanning more than 180 degrees of longitude (its
+// bound straddles the equator, is wider than 180 degrees and not full in latitude); Y is a thin
+// triangle well inside the band with one edge along the equator between two points that are almost,
+// but not exactly, antipodal (RectBounder gives such an edge the full bound).  Y's first two
+// vertices are exact: an axis point and its antipode moved by a few 1e-16 along the equator.
+func c07BandPair(seed int64, k int, r *rand.Rand) (x, y []s2.Point, cert string, info string) {
+	q := r.Intn(4)
+	lng0 := float64(q) * 90
+	ax := [4][2]float64{{1, 0}, {0, 1}, {-1, 0}, {0, -1}}[q]
+	e := []float64{2e-16, 3e-16, 5e-16, 8e-16}[r.Intn(4)]
+	p0 := s2.Point{Vector: r3.Vector{X: ax[0], Y: ax[1], Z: 0}}
+	p1 := s2.Point{Vector: r3.Vector{X: -ax[0] - e*ax[1], Y: -ax[1] + e*ax[0], Z: 0}}
+	hS, hN := 4+r.Float64()*31, 4+r.Float64()*31
+	hz := (0.2 + 0.4*r.Float64()) * math.Min(hS, hN)
+	north := r.Intn(2) == 0
+	zl := hz
+	if !north {
+		zl = -hz
+	}
+	p2 := s2.PointFromLatLng(s2.LatLngFromDegrees(zl, lng0+90+(r.Float64()*20-10)))
+	if north {
+		y = []s2.Point{p0, p1, p2}
+	} else {
+		y = []s2.Point{p0, p2, p1}
+	}
+	o1, o2 := 5+r.Float64()*65, 5+r.Float64()*65
+	step := []float64{5, 10, 20}[r.Intn(3)]
+	lo, hi := lng0-o1, lng0+180+o2
+	for l := lo; l < hi; l += step {
+		x = append(x, s2.PointFromLatLng(s2.LatLngFromDegrees(-hS, l)))
+	}
+	x = append(x, s2.PointFromLatLng(s2.LatLngFromDegrees(-hS, hi)))
+	for l := hi; l > lo; l -= step {
+		x = append(x, s2.PointFromLatLng(s2.LatLngFromDegrees(hN, l)))
+	}
+	x = append(x, s2.PointFromLatLng(s2.LatLngFromDegrees(hN, lo)))
+	cert = "nested"
+	info = fmt.Sprintf("seed=%d k=%d X: band lat -%.2f..%.2f lng %.2f..%.2f step %.0f (%d vertices), Y: triangle (lng %.0f lat 0) - (antipode - %.0e) - (lat %.2f), cert=%q",
+		seed, k, hS, hN, lo, hi, step, len(x), lng0, e, zl, cert)
+	return
+}
+
 func c07RandPair(seed int64, k int) (x, y []s2.Point, cert string, info string) {
 	r := rand.New(rand.NewSource(seed*1000003 + int64(k)))
+	if k%5 == 4 {
+		return c07BandPair(seed, k, r)
+	}
 	rp := func() s2.Point {
 		for {
 			p := s2.PointFromCoords(r.NormFloat64(), r.NormFloat64(), r.NormFloat64())
@@ -693,6 +753,7 @@ type c07Event struct {
 	SelfI [4]bool    `json:"selfi"`
 	Cert  string     `json:"cert"`
 	Span  bool       `json:"span"`
+	Hole  bool       `json:"hole"` // cert nested: PolygonFromLoops({X,Y}) makes Y a hole and X a shell, in both input orders
 	info  string
 }
 
@@ -710,6 +771,20 @@ func c07Observe(seed int64, k int) c07Event {
 			_, c1 := c07Spans(s2.VerifLoopIndex(xs[s]), s2.VerifLoopIndex(ys[u]))
 			_, c2 := c07Spans(s2.VerifLoopIndex(ys[u]), s2.VerifLoopIndex(xs[s]))
 			ev.Span = ev.Span || c1 || c2
+		}
+	}
+	ev.Hole = true
+	if cert == "nested" {
+		for order := 0; order < 2; order++ {
+			lx, ly := s2.LoopFromPoints(xp), s2.LoopFromPoints(yp)
+			in := []*s2.Loop{lx, ly}
+			if order == 1 {
+				in = []*s2.Loop{ly, lx}
+			}
+			pg := s2.PolygonFromLoops(in)
+			if pg.NumLoops() != 2 || lx.IsHole() || !ly.IsHole() {
+				ev.Hole = false
+			}
 		}
 	}
 	for n, l := range []*s2.Loop{xs[0], xs[1], ys[0], ys[1]} {
@@ -756,6 +831,9 @@ func c07EventLaws(e c07Event) []string {
 	if e.Cert == "nested" && !(e.C[0][0] && e.I[0][0] && !e.I[1][0]) {
 		bad = append(bad, "certNested")
 	}
+	if e.Cert == "nested" && !e.Hole {
+		bad = append(bad, "certNestedHole")
+	}
 	if e.Cert == "disjoint" && !(!e.I[0][0] && !e.C[0][0] && !e.D[0][0] && e.C[1][0]) {
 		bad = append(bad, "certDisjoint")
 	}
@@ -797,6 +875,9 @@ func opC07Rand(raw json.RawMessage, o *Out) {
 	span := "nospan"
 	if ev.Span {
 		span = "span"
+	}
+	if c.K%5 == 4 {
+		span += "/equatorial-band" // the c07BandPair family
 	}
 	for _, law := range c07EventLaws(ev) {
 		o.Fail("c07rand/law/"+law+"/"+span, "random regular loops violate law %q: %s c=%v d=%v i=%v j=%v", law, ev.info, ev.C, ev.D, ev.I, ev.J)
